@@ -216,8 +216,49 @@ def diagnostic_failure_case(_=None):
   return n, n, viols, [dict(scenario='diagnostic formatting fails', classes=n)]
 
 
+def _raise_instance(exc_cls, msg='boom'):
+  raise exc_cls(msg)
+
+
+def _make_exc_class(base=Exception):
+  class Boom(base):       # every call makes a *distinct* class with the same module and qualname
+    pass
+  return Boom
+
+
+def same_named_classes_case(_=None):
+  """Distinct exception classes that share module and qualified name (class factories, reloaded
+  modules), failing one after the other in one process: each escaped exception must still be an
+  instance of *its own* original class, carry the original message and chain to the original."""
+  viols = []
+  n = 0
+  for base in (Exception, ValueError, KeyError):
+    classes = [_make_exc_class(base) for _ in range(3)]
+    for rnd in range(2):
+      for i, cls in enumerate(classes):
+        n += 1
+        cfg = fdl.Config(dags.node_fn(0), [fdl.Config(_raise_instance, cls, f'm{i}')])
+        try:
+          fdl.build(cfg)
+          viols.append(dict(what='a raising callable did not make build fail', shape=[],
+                            sig='same-named', store=base.__name__, op='', scenario='same-named'))
+        except BaseException as e:   # pylint: disable=broad-except
+          if not isinstance(e, cls):
+            viols.append(dict(
+                what=f'failure #{i} (round {rnd}) raised an instance of class #{i} named '
+                     f'{cls.__qualname__}, but the escaped exception {type(e).__mro__[:3]} is not an '
+                     f'instance of that class (an `except` for it would miss it)',
+                shape=[], sig='same-named', store=base.__name__, op='', scenario='same-named'))
+          elif f'm{i}' not in str(e):
+            viols.append(dict(what=f'escaped exception lost the original message: {e}', shape=[],
+                              sig='same-named', store=base.__name__, op='', scenario='same-named'))
+  return n, n, viols, [dict(scenario='distinct exception classes with equal module/qualname', cases=n)]
+
+
 def replay(case):
-  if case.get('scenario') == 'diag':
+  if case.get('scenario') == 'same-named':
+    r = same_named_classes_case()
+  elif case.get('scenario') == 'diag':
     r = diagnostic_failure_case()
   elif case.get('scenario') == 'nested':
     r = nested_build_case()
@@ -241,11 +282,13 @@ def run(tier='quick', seed=0, nproc=16):
   res = common.pmap(check_case, jobs, nproc)
   res.append(nested_build_case())
   res.append(diagnostic_failure_case())
+  res.append(same_named_classes_case())
   return common.merge(
       res, 'layerb.prop_C05',
       rule='crash points: every Buildable node of every DAG shape (<= %d nodes, Config/list/dict) as '
            'the failing node x exception-class shapes (custom __init__, __str__ override, slots, '
            'non-subclassable, BaseException subclasses, KeyboardInterrupt) x failure while '
            'formatting the diagnostic (repr raising) x repeated failures, then follow-up builds; '
-           'nested build rejected; every case is distinct' % n,
+           'nested build rejected; distinct exception classes sharing module and qualified name; every '
+           'case is distinct' % n,
       exhaustive=True, bound=f'DAGs <= {n} nodes')
